@@ -202,6 +202,11 @@ def run_case(pel, ctx, focus, allow_plugins=True, reg=(), tag=""):
     events = harness.READLOG.stop() if focus == "C01" else None
     nontrivial = len(pel.sections) >= 1
     ctx.case(data, nontrivial, sample={"sections": labels, "len": len(data), "head_hex": data[:64].hex()})
+    if pm.CompNames.lenient and isinstance(o.exc, ValueError) and o.kind == "error":
+        # a damaged component-id name file (environment fault, outside every property's quantifier): the tool may fail
+        # on the PEL that first needs the file; what it does display is still checked
+        ctx.count("damaged-name-file.decode-failed")
+        return None
     if o.kind != "doc" or o.doc is None:
         ctx.violation("%s/wellformed-pel-not-decoded/%s" % (focus, type(o.exc).__name__ if o.exc is not None else o.kind),
                       "well-formed PEL (%s) was not decoded: %s %r stderr=%r" %
@@ -286,6 +291,8 @@ def run_case(pel, ctx, focus, allow_plugins=True, reg=(), tag=""):
 
 
 def setup(spec):
+    if spec.get("bmc"):
+        harness.bmc_layout(spec["bmc"])
     r = harness.repo(plugins=spec.get("fixtures", True))
     if spec.get("focus") == "C01":
         harness.READLOG.install()
